@@ -54,6 +54,15 @@ GridBad(r) ==
          THEN <<"increasing", ToString(<<"min_step", r.min_step, "first", r.q_first, "last", r.q_last, "min", r.q_min>>)>>
     ELSE <<>>
 
+\* The lengths are a set: the transform chooses its q range from the first, the second and the last one, so a
+\* grid is admissible when those three are where an increasing grid has them and the others lie in between, in
+\* any order.  Every clause below pairs the k-th returned value with the k-th length as given.
+OrderOK(xi) == LET n == Len(xi)
+               IN  \/ StrictlyIncreasing(xi)
+                   \/ /\ n >= 5 /\ FLt(xi[1], xi[2])
+                      /\ \A k \in 3..(n - 1) : FLt(xi[2], xi[k]) /\ FLt(xi[k], xi[n])
+                      /\ \A j, k \in 3..(n - 1) : j # k => ~FEq(xi[j], xi[k])
+
 ApplyConstruct(e) ==
     LET a == e.args
         r == e.res
@@ -61,7 +70,7 @@ ApplyConstruct(e) ==
         sinacc == IF e.level = "dm" THEN SinAccOfTheta(a.theta) ELSE SinAccOfClass(a.acc)
         s0 == [tid |-> e.tid, skip |-> TRUE]
         argsOK == /\ n >= 1 /\ Len(a.lam) = n
-                  /\ Positive(a.xi) /\ StrictlyIncreasing(a.xi) /\ Positive(a.lam)
+                  /\ Positive(a.xi) /\ OrderOK(a.xi) /\ Positive(a.lam)
                   /\ a.acc \in {"full", "zero", "mid"}
         \* the acceptance the harness asked for is of the class it says (for "mid" the harness derives
         \* the angle from the observed grid, so this is checked after the grid itself)
